@@ -28,10 +28,33 @@ def _install_hooks(log):
     names = {PassPlacement.Cpu: "Cpu", PassPlacement.Npu: "Npu", PassPlacement.MemoryOnly: "Mem",
              PassPlacement.StartupInit: "Startup"}
 
-    def describe(passes):
+    def describe(passes, sg_outputs=()):
         idx = {id(ps): i + 1 for i, ps in enumerate(passes)}
         out = []
+        tid, tnames = {}, []
+
+        def tensor_id(tens):
+            if id(tens) not in tid:
+                tid[id(tens)] = len(tid) + 1
+                tnames.append(tens.name)
+            return tid[id(tens)]
+
+        sg_out = {id(t) for t in sg_outputs}
         for ps in passes:
+            # tensors the operators of this pass produce and somebody outside the pass uses
+            esc = []
+            for op in ps.ops:
+                for tens in op.outputs:
+                    if tens is None:
+                        continue
+                    outside = any(c is not None and getattr(c, "scheduled_pass", None) is not ps
+                                  for c in tens.consumers())
+                    if (outside or id(tens) in sg_out) and tensor_id(tens) not in esc:
+                        esc.append(tensor_id(tens))
+            decl = []
+            for tens in ps.outputs:
+                if tens is not None and tensor_id(tens) not in decl:
+                    decl.append(tensor_id(tens))
             prod = []
             for tens in ps.inputs:
                 for op in tens.ops:
@@ -41,7 +64,8 @@ def _install_hooks(log):
                         prod.append(j)
             out.append({"pl": names.get(ps.placement, "Unknown"),
                         "na": bool(ps.ops and ps.ops[0].run_on_npu),
-                        "prod": prod, "name": ps.name,
+                        "prod": prod, "name": ps.name, "esc": esc, "decl": decl,
+                        "escnames": [tnames[i - 1] for i in esc if i not in decl][:4],
                         "ops": [str(op.type).replace("Op.", "") for op in ps.ops][:4],
                         "opnames": [op.name for op in ps.ops][:4]})
         return out
@@ -62,7 +86,7 @@ def _install_hooks(log):
     def links(self):
         if state["in_pack"]:
             try:
-                log.append({"ev": "packed", "sg": self.name, "passes": describe(self.passes)})
+                log.append({"ev": "packed", "sg": self.name, "passes": describe(self.passes, self.output_tensors)})
             except Exception:
                 log.append({"ev": "hook_error", "where": "packed", "tb": traceback.format_exc()[-800:]})
         return real_links(self)
